@@ -846,6 +846,15 @@ func keyFromSameMap(l *ssa.Lookup) bool {
 		pb, okb := core.Path(l.X)
 		return oka && okb && pa == pb
 	}
+	return sliceOfKeysOf(ia.X, sameMap, 0)
+}
+
+// sliceOfKeysOf: the slice value only ever receives keys of a range over a map accepted by isMap (appends in the
+// function itself, or the result of a helper of the package that returns such a slice for its map parameter).
+func sliceOfKeysOf(sl ssa.Value, isMap func(ssa.Value) bool, depth int) bool {
+	if depth > 2 {
+		return false
+	}
 	seen := map[ssa.Value]bool{}
 	nApp := 0
 	var fromKeys func(v ssa.Value, d int) bool
@@ -868,7 +877,36 @@ func keyFromSameMap(l *ssa.Lookup) bool {
 			return true
 		case *ssa.Call:
 			b, isB := x.Call.Value.(*ssa.Builtin)
-			if !isB || b.Name() != "append" || len(x.Call.Args) != 2 {
+			if !isB {
+				// a helper returning the (sorted) keys of its map parameter
+				h := core.StaticCallee(x)
+				if h == nil || len(h.Blocks) == 0 || h.Signature.Results().Len() != 1 {
+					return false
+				}
+				for k, prm := range h.Params {
+					if k >= len(x.Call.Args) || !isMap(x.Call.Args[k]) {
+						continue
+					}
+					okAll, nRet := true, 0
+					for _, hb := range h.Blocks {
+						ret, isRet := hb.Instrs[len(hb.Instrs)-1].(*ssa.Return)
+						if !isRet {
+							continue
+						}
+						nRet++
+						pv := ssa.Value(prm)
+						if !sliceOfKeysOf(ret.Results[0], func(m ssa.Value) bool { return m == pv }, depth+1) {
+							okAll = false
+						}
+					}
+					if okAll && nRet > 0 {
+						nApp++
+						return true
+					}
+				}
+				return false
+			}
+			if b.Name() != "append" || len(x.Call.Args) != 2 {
 				return false
 			}
 			if !fromKeys(x.Call.Args[0], d+1) {
@@ -901,7 +939,7 @@ func keyFromSameMap(l *ssa.Lookup) bool {
 						return false
 					}
 					rg, isRg := nx.Iter.(*ssa.Range)
-					if !isRg || !sameMap(rg.X) {
+					if !isRg || !isMap(rg.X) {
 						return false
 					}
 					nApp++
@@ -911,8 +949,9 @@ func keyFromSameMap(l *ssa.Lookup) bool {
 		}
 		return false
 	}
-	return fromKeys(ia.X, 0) && nApp > 0
+	return fromKeys(sl, 0) && nApp > 0
 }
+
 
 // elemAssumedNonNil: elements of containers are assumed non-nil unless they are dynamic JSON values
 // (interface{}): pointer, func and named-interface (error, validators) elements are only ever inserted
